@@ -685,6 +685,10 @@ class Engine:
 
     # ------------------------------------------------------------ arithmetic
     def arith(self, op, a, b):
+        if isinstance(op, ast.Mod) and kind_of(a) == "str" and self.reg.external_named("str%") is not None:
+            # `fmt % value` is text formatting (None and tuples are legal right operands): a contract that models the
+            # formatted text registers the external "str%"; without one the text stays opaque (below)
+            return self.reg.external_named("str%")(self, [a, b], {})
         a = self.unopt(a, "left operand")
         b = self.unopt(b, "right operand")
         ka, kb = kind_of(a), kind_of(b)
